@@ -34,6 +34,43 @@ impl OrderedCallGraph {
         diagnostics: &crate::diagnostic::DiagnosticSink,
     ) -> Result<OrderedCallGraph, ()> {
         let copy_checker = CopyChecker::new(krate_collection);
+        #[cfg(pavex_verif)]
+        super::verif_dump::emit(format!(
+            "{{\"ev\":\"input\",\"g\":{}}}",
+            super::verif_dump::graph_json(
+                &call_graph.call_graph,
+                &copy_checker,
+                component_db,
+                computation_db
+            )
+        ));
+        #[cfg(pavex_verif)]
+        let call_graph = match Self::borrow_check(
+            call_graph,
+            &copy_checker,
+            component_db,
+            computation_db,
+            krate_collection,
+            diagnostics,
+        ) {
+            Ok(g) => {
+                super::verif_dump::emit(format!(
+                    "{{\"ev\":\"checked\",\"g\":{}}}",
+                    super::verif_dump::graph_json(
+                        &g.call_graph,
+                        &copy_checker,
+                        component_db,
+                        computation_db
+                    )
+                ));
+                g
+            }
+            Err(()) => {
+                super::verif_dump::emit("{\"ev\":\"rejected\"}".to_string());
+                return Err(());
+            }
+        };
+        #[cfg(not(pavex_verif))]
         let call_graph = Self::borrow_check(
             call_graph,
             &copy_checker,
@@ -212,6 +249,15 @@ impl OrderedCallGraph {
             nodes_to_visit.extend(std::mem::take(&mut parked_nodes));
         }
 
+        #[cfg(pavex_verif)]
+        super::verif_dump::emit(format!(
+            "{{\"ev\":\"order\",\"pos\":{:?}}}",
+            node_id2position
+                .iter()
+                .map(|(n, p)| [n.index(), *p])
+                .sorted()
+                .collect::<Vec<_>>()
+        ));
         // Build a new call graph where the id of a node matches its position.
         let (new_root_index, new_graph) = {
             let mut new_graph =
